@@ -13,7 +13,7 @@ pub const RULE: &str = "valid documents (generated spec or RichSpec; known and u
 4-byte floats, 1-8 byte ids; payloads 0..300 bytes) × EVERY cut position 0..=len (exhaustive per document) × one of {slice source, 1-byte reads, random chunking} × capacity {default, 16, 17, 33, 64, len±1}. \
 Oracle from the reference encoder's layout (not from the reader): non-End items = exactly the elements complete in the prefix; items emitted form a prefix of the uncut document's sequence that stops before the \
 incomplete element; at a tag boundary: Ends of all open masters innermost first, then None; otherwise exactly one UnexpectedEOF with tag_start / tag_id / tag_size / partial_data as the statement fixes them; never a corruption error. \
-Stage big_payload_cuts: a RichSpec document with one Blob of 65-145 KB, the same oracle at ~27 sampled cuts (element ends, ±2 around multiples of 64 KiB inside the payload and in the stream, random), slice or chunked source, capacity {default, 16, 64, 4096, 70 000}. Each (document, cut) is one evaluation; non-trivial: cut strictly inside an element; distinct by (document hash, cut).";
+Stage big_payload_cuts: a RichSpec document with one Blob of 65-145 KB (1 in 12: 1-3 MiB, cut around header end + 1 MiB too), the same oracle at ~27 sampled cuts (element ends, ±2 around multiples of 64 KiB inside the payload and in the stream, random), slice or chunked source, capacity {default, 16, 64, 4096, 70 000}. Each (document, cut) is one evaluation; non-trivial: cut strictly inside an element; distinct by (document hash, cut).";
 
 pub const ASSUMPTIONS: &[&str] = &[
     "Ends between the last complete tag and the incomplete one may or may not be delivered before the error (the statement fixes tags and the error, not those Ends)",
